@@ -716,7 +716,7 @@ def plan(tier, seed):
     cases = []
     for ti, (ct, w) in enumerate(types):
         shapes = CAT_SHAPES if kind_of(w) == "category" else XY_SHAPES
-        per = len(shapes) if tier == "quick" else 500
+        per = 3 * len(shapes) if tier == "quick" else 500
         for i in range(per):
             rnd = rng("C07plan", seed, ct, i)
             shape = shapes[i] if i < len(shapes) else rnd.choice(["random"] * 3 + shapes)
